@@ -222,3 +222,16 @@ def IndexableFact (id : String) (f : Obj) : Prop :=
   ∀ r, extractRule f false = .ok (some r, f) → Obj.has r "schedule" = false → ∀ s : St, (s.indexRule id r).2 = none
 
 def AllIndexable (s : St) : Prop := ∀ p ∈ s.facts, IndexableFact p.1 p.2
+
+/-- neither `fn` nor the parent read changes the state of any location of `sys` at time `now`
+(e.g. nothing stored is expired) -/
+def QuietWalk {α} (sys : Sys) (now : Int) (fn : String → LM α) : Prop :=
+  (∀ m l, sys.get? m = some l → (fn m l).1 = l) ∧ (∀ m l, sys.get? m = some l → (locGetParentsRaw now l).1 = l)
+
+/-- decide that no location of `sys` holds an expired `!.parents` fact at `now` (then parent reads are quiet) -/
+def quietReadB (sys : Sys) (now : Int) : Bool :=
+  sys.all (fun p => match amGet p.2.st.facts "!.parents" with
+    | none => true
+    | some f => match checkExpiration f now with
+      | .ok true => false
+      | _ => true)
